@@ -832,14 +832,15 @@ class Hugr(Mapping[Node, NodeData], Generic[OpVarCov]):
             src = Node(src_node, _metadata=get_meta(src_node))
             dst = Node(dst_node, _metadata=get_meta(dst_node))
             if src_offset is None or dst_offset is None:
-                # an edge without port offsets is a state-order edge
-                hugr.add_order_link(src, dst)
+                # an edge without port offsets is a state-order edge (every
+                # listed edge is restored, parallel ones included)
+                hugr.add_link(src.out(-1), dst.inp(-1))
                 continue
             src_order = _order_port_offset(hugr[src].op, Direction.OUTGOING)
             dst_order = _order_port_offset(hugr[dst].op, Direction.INCOMING)
             if src_offset == src_order and dst_offset == dst_order:
                 # the port after the signature's ports is the order port
-                hugr.add_order_link(src, dst)
+                hugr.add_link(src.out(-1), dst.inp(-1))
                 continue
             hugr.add_link(src.out(src_offset), dst.inp(dst_offset))
 
